@@ -275,7 +275,7 @@ func genValue(ch *explore.Chooser, s refcoerce.Schema, t *refcoerce.Type, nest i
 		}
 		return m
 	}
-	switch ch.Deviate(23) {
+	switch ch.Deviate(26) {
 	case 0:
 		return base()
 	case 1:
@@ -362,9 +362,24 @@ func genValue(ch *explore.Chooser, s refcoerce.Schema, t *refcoerce.Type, nest i
 		m := base()
 		m["aa"] = map[string]int64{"r": 3, "z": 4}
 		return m
-	default:
+	case 22:
 		m := base()
 		m["aa"] = map[string]float64{"r": 1.5}
+		return m
+	case 23:
+		// an undeclared key whose value is an explicit null
+		m := base()
+		m["zz"] = nil
+		return m
+	case 24:
+		// a declared key in another case, holding null
+		m := base()
+		m["B"] = nil
+		return m
+	default:
+		m := base()
+		var np *int
+		m["zz"] = np // an undeclared key holding a nil pointer
 		return m
 	}
 }
